@@ -199,6 +199,10 @@ def gxx_values(d, tag, items, prelude=""):
 # observation: interrogate + idbdump
 # ---------------------------------------------------------------------------
 
+class Watchdog(Exception):
+    """a tool run timed out twice: the case is inconclusive"""
+
+
 class Runner:
     def __init__(self, d, res):
         self.d = d
@@ -225,7 +229,7 @@ class Runner:
         if r.timed_out:
             r2, paths = tools.interrogate(b, [hdr], sub, opts=OPTS, timeout=120)
             if r2.timed_out:
-                return ("timeout", ""), None, r2
+                raise Watchdog()        # C07 does not promise termination; C15 does
             r = r2
         if r.died():
             return (died_kind(r), ",".join(r.frames(3))), None, r
@@ -1088,15 +1092,19 @@ def gen_uneval(case):
 def run_case(ctx, case):
     res = core.CaseResult()
     kind = case.get("kind", "batch")
-    if kind == "batch":
-        items = gen_batch(case)
-        judge_batch(ctx, case, res, items)
-    elif kind == "explicit":
-        judge_batch(ctx, case, res, case["items"], case.get("prelude", ""))
-    elif kind == "uneval":
-        run_uneval(ctx, case, res)
-    else:
-        raise core.HarnessError("unknown case kind " + str(kind))
+    try:
+        if kind == "batch":
+            items = gen_batch(case)
+            judge_batch(ctx, case, res, items)
+        elif kind == "explicit":
+            judge_batch(ctx, case, res, case["items"], case.get("prelude", ""))
+        elif kind == "uneval":
+            run_uneval(ctx, case, res)
+        else:
+            raise core.HarnessError("unknown case kind " + str(kind))
+    except Watchdog:
+        res.inconclusive = "watchdog"
+        res.count("timeouts")
     return res
 
 
@@ -1226,13 +1234,13 @@ def main(chk):
         "first run of every header uses the ASan+UBSan build",
         "only expressions whose every operand and intermediate (after the usual arithmetic conversions) fits in int",
     ]
-    nb = chk.pick(64, 1400)
+    nb = chk.pick(80, 1000)
     pairs = all_pairs()
     chk.rng.shuffle(pairs)
     cases = []
-    per = (len(pairs) + nb - 1) // nb if chk.quick() else 2
+    per = max(4, (len(pairs) + nb - 1) // nb)          # every pair at least once per run
     for i in range(nb):
-        forced = pairs[(i * per) % len(pairs):(i * per) % len(pairs) + per] if (chk.quick() or True) else []
+        forced = [pairs[(i * per + j) % len(pairs)] for j in range(per)]
         prof = {}
         if i % 8 == 3:
             prof["vars"] = True
